@@ -252,6 +252,7 @@ def cases(draw, ops=None, max_calls=6, modes=(False, True), max_syms=14, allow_m
         'tail': draw(st.sampled_from(['eof', 'eof', 'timeout'])),
         'maxread': draw(st.sampled_from([2000, 2000, 1, 2, 3, 7])),
         'sws': inst_w,
+        'ic': draw(st.integers(0, 3)) == 0,
         'calls': calls,
     }
 
@@ -366,6 +367,10 @@ def make_pair(case, spawn_cls=Tracing):
         kw['encoding'] = case['enc']
         kw['codec_errors'] = case.get('errors', 'strict')
     sp = spawn_cls(list(script), tail=case['tail'], clock=clock, **kw)
+    if case.get('ic'):
+        # streams and patterns are all lower case: ignoring case changes no answer (what `.` matches must not change
+        # either); compiled patterns are never affected by the attribute
+        sp.ignorecase = True
     mo = refmodel.Model(list(script), case['tail'], encoding=case['enc'],
                         errors=case.get('errors', 'strict'), maxread=case['maxread'])
     return sp, mo, clock
